@@ -60,6 +60,8 @@ def verlet_case(draw):
         # a rigid bond between the first two atoms (ASE FixBondLength): velocity Verlet with constraints applied to the
         # positions and to both half-kicks stays reversible and second order
         "rigid_bond": n >= 2 and kind == "pair" and draw(st.integers(0, 2)) == 0,
+        # the integrator object has run before: an earlier trajectory under ANOTHER calculator ended at these positions
+        "warm": draw(st.integers(0, 3)) == 0,
     }
 
 
@@ -111,8 +113,15 @@ def run_verlet(case):
             warnings.simplefilter("ignore")
             atoms, ctx, dt_fs = setup_verlet(case)
             n = case["steps"]
-            x0, p0 = atoms.positions.copy(), atoms.get_momenta().copy()
             v = make_verlet(case, dt_fs, n)
+            if case.get("warm") and not case.get("rigid_bond"):
+                real_calc, p_case = atoms.calc, atoms.get_momenta().copy()
+                atoms.calc = ModelCalc("harmonic", {"k": 3.7 * case["k"], "kvec": [1.0, 2.0, 0.5], "center": (2.0, 3.5, 3.0), "q": 0.0, "a": 0.0, "s": 1.5})
+                v.integrate(ctx)  # wherever this ends is where the judged trajectory starts
+                atoms.calc = real_calc
+                atoms.set_momenta(p_case)
+                labels.append("integrator-used-before-under-another-calculator")
+            x0, p0 = atoms.positions.copy(), atoms.get_momenta().copy()
             v.integrate(ctx)
             x1, p1 = atoms.positions.copy(), atoms.get_momenta().copy()
             atoms.set_momenta(-p1)
@@ -175,7 +184,7 @@ def refresh_case(draw):
             # forced mode: optional constraints (the kinetic temperature counts the remaining degrees of freedom)
             "constraint": draw(st.sampled_from([None, "FixAtoms", "FixCom", "FixAtoms+FixCom"])), "nfixed": draw(st.integers(1, 150)),
             # move mode: the distribution handed to the move (a recording wrapper, or the shipped one used directly)
-            "dist_kind": draw(st.sampled_from(["wrapped", "direct", "direct-forced"]))}
+            "dist_kind": draw(st.sampled_from(["wrapped", "wrapped-postprocess", "direct", "direct-forced"]))}
 
 
 def run_refresh(case):
@@ -243,9 +252,12 @@ def run_refresh(case):
 
             def dist(context):
                 maxwell_boltzmann_distribution(context)
+                if dk == "wrapped-postprocess":
+                    # a user's distribution that post-processes the stock draw (here: halves it)
+                    context.atoms.set_momenta(0.5 * context.atoms.get_momenta())
                 recorded.append(float(context.atoms.get_kinetic_energy()))
 
-            if dk != "wrapped":
+            if dk not in ("wrapped", "wrapped-postprocess"):
                 from functools import partial
 
                 dist = partial(maxwell_boltzmann_distribution, forced=(dk == "direct-forced"))
@@ -283,7 +295,7 @@ def run_refresh(case):
                     same = np.argwhere(started_p[-1] == p_prev).tolist()
                     out["violation"] = {"kind": "momentum-component-not-redrawn", "detail": f"T={T!r}: the trajectory started with momentum components {same[:6]} equal to their values before the refresh (every component must be drawn afresh)"}
                     return out
-                if ok and dk != "wrapped":
+                if ok and dk not in ("wrapped", "wrapped-postprocess"):
                     # the shipped distribution used directly: the momenta the trajectory starts from are the fresh ones
                     if not started or ctx.last_kinetic_energy != started[-1]:
                         out["violation"] = {"kind": "reference-kinetic-energy", "detail": f"distribution={dk}: context.last_kinetic_energy={ctx.last_kinetic_energy!r} but the trajectory started from momenta with KE={(started[-1] if started else None)!r}"}
